@@ -131,14 +131,16 @@ Qed.
 
 (* ---- the set of deleted ids = the doomed set of the specification ----------------------------- *)
 Lemma child_edges_In X ns a b :
-  In (a, b) (child_edges X ns) <-> exists ty, In (a, ty, b) X /\ aggregating X ty = true /\ In b ns.
+  In (a, b) (child_edges X ns) <->
+  exists ty, In (a, ty, b) X /\ aggregating X ty = true /\ In a ns /\ In b ns.
 Proof.
   unfold child_edges. rewrite in_map_iff. split.
   - intros (q & He & Hin). apply filter_In in Hin. destruct Hin as [Hin Hc].
-    apply andb_true_iff in Hc. destruct Hc as [Ha Hb]. apply memZ_In in Hb.
+    apply andb_true_iff in Hc. destruct Hc as [Hc Hb]. apply andb_true_iff in Hc. destruct Hc as [Ha Hs].
+    apply memZ_In in Hb. apply memZ_In in Hs.
     rewrite (triple_eta q) in Hin. inversion He; subst. exists (typ q). auto.
-  - intros (ty & Hin & Ha & Hb). exists (a, ty, b). split; [reflexivity|]. apply filter_In.
-    split; [exact Hin|]. apply andb_true_iff. split; [exact Ha|apply memZ_In; exact Hb].
+  - intros (ty & Hin & Ha & Hs & Hb). exists (a, ty, b). split; [reflexivity|]. apply filter_In.
+    split; [exact Hin|]. rewrite !andb_true_iff. split; [split; [exact Ha|]|]; apply memZ_In; assumption.
 Qed.
 
 Section Case.
@@ -162,19 +164,20 @@ Section Case.
   Lemma deleted_is_doomed b st' D :
     delete st0 (c_target c) (c_dtr c) = Some (b, st') ->
     In (c_target c) D ->
-    (forall x r, In x D -> In r (F (rs st0) x) -> agg st0 (fst r) = true -> In (snd r) (nodes st0) -> In (snd r) D) ->
+    (forall x r, In x D -> In x (nodes st0) -> In r (F (rs st0) x) -> agg st0 (fst r) = true ->
+                 In (snd r) (nodes st0) -> In (snd r) D) ->
     (forall C, closedset st0 C -> In (c_target c) C -> incl D C) ->
     forall x, In x D <-> In x (doomed X (c_nodes c) (c_target c)).
   Proof.
     intros _ Ht Hcl Hmin x. unfold doomed. split.
     - apply Hmin.
-      + intros y q Hy Hq Ha Hn. cbn [rs nodes st0] in *. apply reach_closed with (s := y); [exact Hy|].
-        apply child_edges_In. exists (fst q). split; [|split; [|exact Hn]].
+      + intros y q Hy Hy0 Hq Ha Hn. cbn [rs nodes st0] in *. apply reach_closed with (s := y); [exact Hy|].
+        apply child_edges_In. exists (fst q). split; [|split; [|split; [exact Hy0|exact Hn]]].
         * apply proj_In. rewrite <- HF0. destruct q; exact Hq.
         * unfold agg in Ha. cbn [rs st0] in Ha. rewrite (agg_spec r0 X HF0) in Ha. exact Ha.
       + apply reach_spec. constructor.
     - intros Hx. apply reach_spec in Hx. revert x Hx. apply Reach_closed; [|exact Ht].
-      intros s y Hs Hin. apply child_edges_In in Hin. destruct Hin as (ty & Hin & Ha & Hb).
+      intros s y Hs Hin. apply child_edges_In in Hin. destruct Hin as (ty & Hin & Ha & Hs0 & Hb).
       apply (Hcl s (ty, y)); cbn [fst snd rs nodes st0]; auto.
       + rewrite HF0. apply proj_In. exact Hin.
       + unfold agg. cbn [rs st0]. rewrite (agg_spec r0 X HF0). exact Ha.
@@ -263,9 +266,9 @@ Theorem delete_effect st0 target b st' :
     (forall y r, In r (F (rs st') y) <-> In r (F (rs st0) y) /\ ~ In y D /\ ~ In (snd r) D) /\
     (* the same in the inverse index *)
     (forall d, In d D -> R (rs st') d = [] /\ forall y, ~ In d (R (rs st') y)) /\
-    (* every node aggregated by a deleted id is deleted *)
-    (forall x r, In x D -> In r (F (rs st0) x) -> tmA (fwd (rs st0)) (fst r) = true ->
-                 In (snd r) (nodes st0) -> In (snd r) D) /\
+    (* every node aggregated by a deleted NODE is deleted *)
+    (forall x r, In x D -> In x (nodes st0) -> In r (F (rs st0) x) ->
+                 tmA (fwd (rs st0)) (fst r) = true -> In (snd r) (nodes st0) -> In (snd r) D) /\
     (* and nothing else: D is included in every set with that closure property *)
     (forall C, closedset st0 C -> In target C -> incl D C).
 Proof.
@@ -279,7 +282,7 @@ Proof.
     - apply memZ_In in Ey. cbn. tauto.
     - apply memZ_false in Ey. rewrite filter_In. unfold notin. rewrite negb_true_iff, memZ_false. tauto. }
   split; [exact Ht|]. split.
-  { apply Hmin; [|left; reflexivity]. intros x r _ _ _ Hn. right. exact Hn. }
+  { apply Hmin; [|left; reflexivity]. intros x r _ _ _ _ Hn. right. exact Hn. }
   split; [exact (rel_nodes _ _ _ _ HR)|]. split; [exact (rel_inv _ _ _ _ HR)|].
   split; [exact InF|]. split; [|split; [exact Hcl|exact Hmin]].
   intros d Hd. pose proof (inv_conv _ (rel_inv _ _ _ _ HR)) as CV. split.
